@@ -81,7 +81,18 @@ def cases(rng, tier):
         shape = [1 if rng.random() < 0.05 else rng.randint(2, hi) for _ in range(N)]
         fill = rng.choice(["generic", "generic", "generic", "decaying", "decaying", "decaying", "lowrank", "lowrank", "zero", "small"])
         what = rng.choice(["tt", "tt", "tucker", "tucker", "both"])
-        c = {"kind": "ranks", "what": what, "fill": fill, "x": mk_dense(rng, fill, shape).tolist(), "alg": rng.choice(["svd", "svd", "eig"])}
+        x_ = mk_dense(rng, fill, shape)
+        if fill in ("generic", "decaying", "lowrank") and rng.random() < 0.3:
+            # zero padding / structural zeros: exactly zero slices at the front or back of one or two axes
+            for _z in range(rng.randint(1, 2)):
+                ax = rng.randrange(N)
+                if shape[ax] >= 2:
+                    k_ = rng.randint(1, max(1, shape[ax] // 2))
+                    sl = [slice(None)] * N
+                    sl[ax] = slice(0, k_) if rng.random() < 0.6 else slice(shape[ax] - k_, None)
+                    x_[tuple(sl)] = 0.0
+            fill = fill + "+zeropad"
+        c = {"kind": "ranks", "what": what, "fill": fill, "x": x_.tolist(), "alg": rng.choice(["svd", "svd", "eig"])}
         if what in ("tt", "both"):
             c["ranks_tt"] = rng.randint(1, 6) if rng.random() < 0.5 else [rng.randint(1, 6) for _ in range(N - 1)]
         if what in ("tucker", "both"):
